@@ -30,6 +30,13 @@ type Mode struct {
 	DurableRead bool // re-read LocalCommitment from the DB at every release (C06)
 	ManyHtlcs   bool // event mix that lets hundreds of HTLCs pile up (C01 many-HTLC arm)
 	ForgedRev   bool // a revoke_and_ack may arrive with a secret that is not the peer's (C06)
+	// MediumDen > 0: one run in MediumDen of a fault arm lets MediumHtlcs
+	// HTLCs be live at once (both sides accept 241), with 4x the steps and an
+	// add-heavy event mix, so cuts, crashes, reloads and retransmissions meet
+	// commitments with dozens of HTLC outputs. Drawn after every other
+	// configuration draw (older tapes yield 0 = off).
+	MediumDen   int
+	MediumHtlcs int
 	MaxSteps    int
 	MaxHtlcs    int
 	// Hooks for other engines (C04/C05): called with the live sim.
@@ -58,6 +65,8 @@ type Sim struct {
 	M    *Model
 	Mode Mode
 	P    [2]*Party
+
+	knobs Knobs
 	Q    [2][]lnwire.Message // Q[s]: messages sent by s, not yet delivered
 
 	Refs     [2]map[uint64]channeldb.AddRef // side s: peer's HTLC id -> fwd-pkg add reference
@@ -88,12 +97,27 @@ var ctxb = context.Background()
 
 // NewSim builds a world and its model.
 func NewSim(r *simcore.Run, cfg Config, mode Mode) *Sim {
+	// The event-mix knobs are configuration draws too; they are drawn here,
+	// before the world is built, so that the medium-HTLC draw can come last
+	// and still widen the channel's limits.
+	knobs := DrawKnobs(r.Tape, mode)
+	if mode.MediumDen > 0 && r.Tape.CfgDraw(mode.MediumDen) == 1 {
+		cfg.MaxHtlcsA, cfg.MaxHtlcsB = 241, 241
+		if cfg.CapacitySat < 16_777_215 {
+			cfg.CapacitySat = 16_777_215
+		}
+		mode.MaxHtlcs = mode.MediumHtlcs
+		mode.MaxSteps *= 4
+		knobs.AddW, knobs.RemoveW = 14, 3
+		r.Arm = "medium-htlcs/" + r.Arm
+		r.Count("probe_medium_htlc_arm")
+	}
 	w := NewWorld(r, cfg)
 	op := 0
 	if !cfg.OpenerIsA {
 		op = 1
 	}
-	s := &Sim{R: r, W: w, Mode: mode, P: [2]*Party{w.A, w.B}}
+	s := &Sim{R: r, W: w, Mode: mode, P: [2]*Party{w.A, w.B}, knobs: knobs}
 	s.M = NewModel(w.InitBalA, w.InitBalB, op, int64(cfg.FeePerKw))
 	for i := 0; i < 2; i++ {
 		s.Refs[i] = map[uint64]channeldb.AddRef{}
